@@ -17,7 +17,7 @@ RULE = ('cases = (program, recording inputs, history of <= 6 (quick) / 15 (thoro
         'non-trivial = history has >= 3 calls including a pullback that is not the first call after its pushforward; distinct by hash')
 ASSUMPTIONS = ['expected results come from a fresh recording of the same program (its correctness is C03/C04/C05)', 'tolerance 1e-10 relative']
 
-KINDS = ['ew', 'ew', 'bin', 'bin', 'binc', 'getitem', 'sum', 'dot', 'prod', 'buffer', 'buffer', 'reshape', 'transpose', 'outer', 'fftfilter', 'tri', 'cplxparts', 'setarr', 'realalias']
+KINDS = ['ew', 'ew', 'bin', 'bin', 'binc', 'getitem', 'sum', 'dot', 'prod', 'buffer', 'buffer', 'reshape', 'transpose', 'outer', 'fftfilter', 'tri', 'cplxparts', 'setarr', 'realalias', 'maxmin']
 
 
 def make_case(rng, tier):
@@ -41,6 +41,21 @@ def make_case(rng, tier):
         hist.append({'k': k, 'x': x, 'pt': rand_coeffs(rng, (N,), -programs.BOX, programs.BOX), 'v': rand_coeffs(rng, (N,), -1, 1),
                      'seed': rng.randrange(1 << 30), 'kind': rng.choice(['ut', 'ut', 'nd']),
                      'dt': rng.choice(['float', 'float', 'float', 'int', 'complex'])})
+    def step(k, dt, D=1, P=1, kind='nd'):
+        x = rand_coeffs(rng, (D, P, N), -1, 1)
+        x[0] = rand_coeffs(rng, (P, N), -programs.BOX, programs.BOX)
+        return {'k': k, 'x': x, 'pt': rand_coeffs(rng, (N,), -programs.BOX, programs.BOX), 'v': rand_coeffs(rng, (N,), -1, 1),
+                'seed': rng.randrange(1 << 30), 'kind': kind, 'dt': dt}
+    r_ = rng.random()
+    if r_ < 0.2:
+        # the same driver at an integer-typed point and then at a float point (same shapes, another dtype of the forward values)
+        k_ = rng.choice(['gradient', 'vec_jac', 'hessian'])
+        hist = [step(k_, 'int'), step(k_, 'float')] + hist
+    elif r_ < 0.35:
+        # a real forward + reverse sweep followed by a complex one with the same (D, P)
+        D_, P_ = rng.randint(1, 2), rng.randint(1, 2)
+        hist = [step('push', 'float', D_, P_, 'ut'), step('pull', 'float', D_, P_, 'ut'), step('push', 'complex', D_, P_, 'ut'),
+                step('pull', 'complex', D_, P_, 'ut')] + hist
     return {'prog': prog, 'N': N, 'rec': rand_coeffs(rng, (N,), -programs.BOX, programs.BOX), 'hist': hist}
 
 
